@@ -55,8 +55,8 @@ class Env(object):
 
 
 def _num(x, what):
-    if isinstance(x, bool) or not isinstance(x, int):
-        raise EvalError('type', '%s needs an int, got %r' % (what, x))
+    if isinstance(x, bool) or not isinstance(x, (int, float)):
+        raise EvalError('type', '%s needs a number, got %r' % (what, x))
     return x
 
 
@@ -360,7 +360,7 @@ def _run(q, A, B, a_names, b_names, res, variant=None):
         return _run_update(q, A, B, res, b_names)
     agg_items = [it for it in q['items'] if it['kind'] == 'agg'] if q.get('except') is None else []
     if agg_items or q.get('group'):
-        return _run_aggregate(q, A, B, res, b_names)
+        return _run_aggregate(q, A, B, res, b_names, variant)
     n = q.get('top')
     streaming = n is not None and not q.get('order') and q.get('distinct') != 'count'
     if streaming:
@@ -505,7 +505,7 @@ def project(q, env):
     return out
 
 
-def _run_aggregate(q, A, B, res, b_names=None):
+def _run_aggregate(q, A, B, res, b_names=None, variant=None):
     if q.get('order') or q.get('distinct'):
         raise QueryError('parsing', None, 'ORDER BY / DISTINCT in aggregate query')
     groups = {}     # key -> list of per-item value lists
@@ -538,6 +538,10 @@ def _run_aggregate(q, A, B, res, b_names=None):
                         raise QueryError('runtime', NR, 'non-constant plain column %d in group %r' % (i + 1, key))
                     g[i].append(vals[i])
     keys = sorted(groups.keys()) if q.get('group') else list(groups.keys())
+    if variant == 'js-group' and q.get('group'):
+        # the JS port orders the groups by the JSON text of the key (known finding)
+        import json
+        keys = sorted(groups.keys(), key=lambda k: json.dumps(list(k), separators=(',', ':'), ensure_ascii=False))
     rows = []
     meta = []
     for key in keys:
